@@ -29,7 +29,8 @@ ASSUMPTIONS = [
     "cell-centre positions from py-pde (axes_coords, grid->cartesian transform) are trusted",
     "the periodic metric is the oracle's own minimum image",
     "cells within 1e-9 (relative) of the interface are knife-edges and skipped by the midpoint/indicator clauses",
-    "amplitudes satisfy sum|a_k| max|Y_k| < 0.9 so the body is star-shaped and the centre is inside",
+    "amplitudes keep the body star-shaped about its centre: either sum|a_k| max|Y_k| < 0.9 or (strongly deformed cases, single "
+    "amplitudes up to 1) the interface distance sampled over 720 / 91x180 directions stays >= 0.15 R",
     "periodic cylindrical grids: clauses that depend on wrapped distances are only asserted where the "
     "Euclidean and the periodic distance agree (known finding pde-cyl-periodic-metric)",
 ]
@@ -124,6 +125,30 @@ def _rand_droplet(rng, spec, cls=None, *, roll_axis=None):
         bound = harmonics.amplitude_bound(cls, amps)
         if bound > 0.85:
             amps *= 0.85 / bound
+        if rng.random() < 0.12:
+            # strongly deformed but valid shapes: amplitudes up to 1, accepted when the body stays
+            # star-shaped about its centre with a margin (interface distance >= 0.15 R in every direction);
+            # the interface may then reach out to more than twice the radius
+            for _try in range(20):
+                if rng.random() < 0.5:
+                    cand = rng.uniform(-1, 1, n) * (rng.random(n) < 0.6)
+                else:
+                    # modes that add up in one direction (cosine modes in 2-D, zonal modes in 3-D): a long lobe
+                    cand = np.zeros(n)
+                    if cls == "PerturbedDroplet2D":
+                        idx = [i for i in range(1, n, 2)]
+                    elif cls == "PerturbedDroplet3D":
+                        idx = [k - 1 for k in range(1, n + 1) if harmonics.lm_from_k(k)[1] == 0]
+                    else:
+                        idx = list(range(n))
+                    for i in idx[:3]:
+                        cand[i] = float(rng.uniform(0.5, 1.0))
+                if np.any(cand) and harmonics.min_rel_interface(cls, cand) >= 0.15:
+                    amps = cand
+                    if rng.random() < 0.7:
+                        width = [0.0, float(0.25 * hm)][int(rng.integers(2))]
+                        R = float(rng.uniform(0.8, 2.0) * hm)
+                    break
         amps = [float(a) for a in amps]
     return {"cls": cls, "pos": [float(x) for x in pos], "radius": R, "width": width, "amps": amps}
 
@@ -215,7 +240,7 @@ def interface_and_distance(grid, spec, d):
         rel = harmonics.rel_interface(d["cls"], d["amps"], diff)
         iface = d["radius"] * rel
         # at zero distance the centre is inside because the body is star-shaped
-        iface = np.where(dist > 0, iface, d["radius"] * (1 - harmonics.amplitude_bound(d["cls"], d["amps"])))
+        iface = np.where(dist > 0, iface, d["radius"] * max(harmonics.min_rel_interface(d["cls"], d["amps"]) - 0.05, 1e-3))
     else:
         iface = np.full(dist.shape, d["radius"])
     return diff, dist, iface
